@@ -26,8 +26,8 @@ RULE = ('cases = generated graphs of 1-12 persistent nodes (Node, PersistentMapp
         'distinct by case hash')
 ASSUMPTIONS = ['a weak reference to a new object causes it to be stored (documented in ObjectWriter.persistent_id)',
                'cross-database targets are committed in their own database before they are referenced']
-BUDGET = {'quick': {'examples': 4000, 'workers': 8},
-          'thorough': {'examples': 30000, 'workers': 16}}
+BUDGET = {'quick': {'examples': 12000, 'workers': 8},
+          'thorough': {'examples': 80000, 'workers': 16}}
 
 KINDS = ['N', 'N', 'M', 'L', 'A', 'X', 'XA', 'X2']
 WRAPS = ['direct', 'tuple', 'list', 'dict', 'nested']
